@@ -1,6 +1,6 @@
 SPECIFICATION Spec
 CONSTANTS
   Mode = "expiry"
-  MaxSteps = 12
+  MaxSteps = 16
 INVARIANT Emit
 CHECK_DEADLOCK FALSE
